@@ -1014,6 +1014,39 @@ Definition g203_destroy : list stmt :=
     Free 0;
     SetNull 0 ] ].
 
+(* scenario 300: muggle_fast_flow_ctl_init, muggle_fast_flow_ctl_destroy
+     0 = arr
+*)
+Definition g300_pre : list stmt :=
+  [].
+Definition g300_op : list stmt :=
+  [ SetNull 0;
+  Alloc 0;
+  IfNull [0] [ Ret (Some Fail) ];
+  Ret (Some Ok) ].
+Definition g300_destroy : list stmt :=
+  [ IfSet 0 [ Free 0;
+    SetNull 0 ] ].
+
+(* scenario 301: muggle_log_file_time_rot_handler_init, muggle_log_file_time_rot_handler_destroy
+     0 = fp
+     note: muggle_log_file_time_rot_handler_rotate: undecided scalar condition `ret < 0` guards no resource statement: skipped
+*)
+Definition g301_pre : list stmt :=
+  [].
+Definition g301_op : list stmt :=
+  [ SetNull 0;
+  Call [ IfSet 0 [ Free 0;
+      SetNull 0 ];
+    Alloc 0;
+    IfNull [0] [ Ret (Some Fail) ];
+    Ret (Some Ok) ] true [ Ret None ];
+  Ret (Some Ok) ].
+Definition g301_destroy : list stmt :=
+  [ IfSet 0 [ Free 0;
+    SetNull 0 ];
+  Ret (Some Ok) ].
+
 Definition gen_table : list (nat * (list stmt * list stmt * list stmt)) :=
   [ (0, (g0_pre, g0_op, g0_destroy));
     (1, (g1_pre, g1_op, g1_destroy));
@@ -1046,5 +1079,214 @@ Definition gen_table : list (nat * (list stmt * list stmt * list stmt)) :=
     (78, (g78_pre, g78_op, g78_destroy));
     (201, (g201_pre, g201_op, g201_destroy));
     (202, (g202_pre, g202_op, g202_destroy));
-    (203, (g203_pre, g203_op, g203_destroy)) ].
+    (203, (g203_pre, g203_op, g203_destroy));
+    (300, (g300_pre, g300_op, g300_destroy));
+    (301, (g301_pre, g301_op, g301_destroy)) ].
 Definition gen_errors : list nat := [].
+
+(* ---- coverage: allocating entry points of the library, from the clang AST of all 86 .c files under muggle/c ----
+   acquisition primitives: malloc calloc realloc aligned_alloc posix_memalign strdup fopen fdopen socket socketpair pipe pipe2 eventfd epoll_create epoll_create1 open openat creat shm_open shmget shmat mmap opendir dup dup2 accept accept4 dlopen popen timerfd_create signalfd inotify_init inotify_init1 kqueue *)
+From Coq Require Import String.
+Open Scope string_scope.
+Definition cov_errors : list string := [].
+Definition cov_files : nat := 86.
+(* (function with external linkage, file: call path to the primitive) *)
+Definition alloc_entry_points : list (string * string) :=
+  [ ("muggle_array_blocking_queue_init", "sync/array_blocking_queue.c: malloc");
+    ("muggle_array_list_append", "dsaa/array_list.c: muggle_array_list_ensure_capacity > malloc");
+    ("muggle_array_list_ensure_capacity", "dsaa/array_list.c: malloc");
+    ("muggle_array_list_init", "dsaa/array_list.c: malloc");
+    ("muggle_array_list_insert", "dsaa/array_list.c: muggle_array_list_ensure_capacity > malloc");
+    ("muggle_async_logger_init", "log/log_async_logger.c: muggle_channel_init > aligned_alloc");
+    ("muggle_async_logger_log", "log/log_async_logger.c: malloc");
+    ("muggle_avl_tree_init", "dsaa/avl_tree.c: malloc");
+    ("muggle_avl_tree_insert", "dsaa/avl_tree.c: muggle_avl_tree_allocate_node > malloc");
+    ("muggle_bytes_buffer_init", "memory/bytes_buffer.c: malloc");
+    ("muggle_channel_init", "sync/channel.c: aligned_alloc");
+    ("muggle_dl_load", "os/dl.c: dlopen");
+    ("muggle_double_buffer_init", "sync/double_buffer.c: malloc");
+    ("muggle_ev_signal_init", "event/event_signal.c: eventfd");
+    ("muggle_evloop_add_ctx", "event/event_loop.c: muggle_linked_list_append > muggle_linked_list_allocate_node > malloc");
+    ("muggle_evloop_init_epoll", "event/internal/event_loop_epoll.c: epoll_create");
+    ("muggle_evloop_init_poll", "event/internal/event_loop_poll.c: malloc");
+    ("muggle_evloop_new", "event/event_loop.c: malloc");
+    ("muggle_fast_flow_ctl_init", "time/fast_flow_controller.c: malloc");
+    ("muggle_flow_ctl_init", "time/flow_controller.c: malloc");
+    ("muggle_hash_table_init", "dsaa/hash_table.c: malloc");
+    ("muggle_hash_table_put", "dsaa/hash_table.c: malloc");
+    ("muggle_heap_ensure_capacity", "dsaa/heap.c: malloc");
+    ("muggle_heap_init", "dsaa/heap.c: malloc");
+    ("muggle_heap_insert", "dsaa/heap.c: muggle_heap_ensure_capacity > malloc");
+    ("muggle_heap_sort", "dsaa/sort.c: muggle_heap_init > malloc");
+    ("muggle_linked_list_append", "dsaa/linked_list.c: muggle_linked_list_allocate_node > malloc");
+    ("muggle_linked_list_init", "dsaa/linked_list.c: malloc");
+    ("muggle_linked_list_insert", "dsaa/linked_list.c: muggle_linked_list_allocate_node > malloc");
+    ("muggle_log_complicated_init", "log/log.c: muggle_log_file_time_rot_handler_init > muggle_log_file_time_rot_handler_rotate > muggle_os_fopen > fopen");
+    ("muggle_log_file_handler_init", "log/log_file_handler.c: muggle_os_fopen > fopen");
+    ("muggle_log_file_rotate_handler_init", "log/log_file_rotate_handler.c: muggle_log_file_rotate_handler_rotate > fopen");
+    ("muggle_log_file_time_rot_handler_init", "log/log_file_time_rot_handler.c: muggle_log_file_time_rot_handler_rotate > muggle_os_fopen > fopen");
+    ("muggle_log_simple_init", "log/log.c: muggle_log_file_rotate_handler_init > muggle_log_file_rotate_handler_rotate > fopen");
+    ("muggle_ma_ring_thread_ctx_get", "sync/ma_ring.c: muggle_ma_ring_thread_ctx_init > aligned_alloc");
+    ("muggle_ma_ring_thread_ctx_init", "sync/ma_ring.c: aligned_alloc");
+    ("muggle_mcast_join", "net/socket_utils.c: muggle_socket_create > socket");
+    ("muggle_memory_pool_alloc", "memory/memory_pool.c: muggle_memory_pool_ensure_space > malloc");
+    ("muggle_memory_pool_ensure_space", "memory/memory_pool.c: malloc");
+    ("muggle_memory_pool_init", "memory/memory_pool.c: malloc");
+    ("muggle_merge_sort", "dsaa/sort.c: malloc");
+    ("muggle_os_fopen", "os/os.c: fopen");
+    ("muggle_os_listdir", "os/os.c: malloc");
+    ("muggle_pointer_slot_init", "memory/pointer_slot.c: malloc");
+    ("muggle_queue_enqueue", "dsaa/queue.c: malloc");
+    ("muggle_queue_init", "dsaa/queue.c: malloc");
+    ("muggle_ring_buffer_init", "sync/ring_buffer.c: aligned_alloc");
+    ("muggle_ring_memory_pool_init", "memory/ring_memory_pool.c: malloc");
+    ("muggle_shm_open", "sync/shm.c: shmat");
+    ("muggle_shm_ringbuf_open", "sync/shm_ring_buffer.c: muggle_shm_open > shmat");
+    ("muggle_socket_create", "net/socket.c: socket");
+    ("muggle_socket_evloop_add_ctx", "net/socket_evloop_handle.c: muggle_queue_enqueue > malloc");
+    ("muggle_socket_evloop_handle_alloc", "net/socket_evloop_handle.c: malloc");
+    ("muggle_socket_evloop_handle_init", "net/socket_evloop_handle.c: malloc");
+    ("muggle_socket_evloop_pipe_init", "net/socket_evloop_pipe.c: pipe");
+    ("muggle_socketpair", "net/socket_utils.c: socketpair");
+    ("muggle_sowr_memory_pool_init", "memory/sowr_memory_pool.c: aligned_alloc");
+    ("muggle_stack_ensure_capacity", "dsaa/stack.c: malloc");
+    ("muggle_stack_init", "dsaa/stack.c: malloc");
+    ("muggle_stack_push", "dsaa/stack.c: muggle_stack_ensure_capacity > malloc");
+    ("muggle_stacktrace_get", "os/stacktrace.c: malloc");
+    ("muggle_tcp_bind", "net/socket_utils.c: muggle_socket_create > socket");
+    ("muggle_tcp_bind_connect", "net/socket_utils.c: muggle_tcp_bind > muggle_socket_create > socket");
+    ("muggle_tcp_connect", "net/socket_utils.c: muggle_socket_create > socket");
+    ("muggle_tcp_listen", "net/socket_utils.c: muggle_socket_create > socket");
+    ("muggle_trie_init", "dsaa/trie.c: malloc");
+    ("muggle_trie_insert", "dsaa/trie.c: muggle_trie_allocate_node > malloc");
+    ("muggle_ts_memory_pool_init", "memory/threadsafe_memory_pool.c: aligned_alloc");
+    ("muggle_udp_bind", "net/socket_utils.c: muggle_socket_create > socket");
+    ("muggle_udp_connect", "net/socket_utils.c: muggle_socket_create > socket") ].
+(* static functions entered only through a function pointer *)
+Definition alloc_callbacks : list (string * string) :=
+  [ ("muggle_log_file_rotate_handler_write", "log/log_file_rotate_handler.c: muggle_log_file_rotate_handler_rotate > fopen");
+    ("muggle_log_file_time_rot_handler_write", "log/log_file_time_rot_handler.c: muggle_log_file_time_rot_handler_rotate > muggle_os_fopen > fopen");
+    ("muggle_socket_evloop_on_read", "net/socket_evloop_handle.c: muggle_socket_evloop_on_accept > accept") ].
+(* library functions called by the driver functions that run with the faults armed (the .op column of g_inst) *)
+Definition driven_under_faults : list string :=
+  [ "muggle_array_blocking_queue_init";
+    "muggle_array_list_append";
+    "muggle_array_list_ensure_capacity";
+    "muggle_array_list_init";
+    "muggle_array_list_insert";
+    "muggle_async_logger_init";
+    "muggle_async_logger_log";
+    "muggle_avl_tree_init";
+    "muggle_avl_tree_insert";
+    "muggle_bytes_buffer_init";
+    "muggle_channel_init";
+    "muggle_double_buffer_init";
+    "muggle_ev_ctx_init";
+    "muggle_ev_signal_init";
+    "muggle_evloop_add_ctx";
+    "muggle_evloop_new";
+    "muggle_fast_flow_ctl_init";
+    "muggle_flow_ctl_init";
+    "muggle_hash_table_init";
+    "muggle_hash_table_put";
+    "muggle_heap_ensure_capacity";
+    "muggle_heap_init";
+    "muggle_heap_insert";
+    "muggle_heap_sort";
+    "muggle_linked_list_append";
+    "muggle_linked_list_init";
+    "muggle_linked_list_insert";
+    "muggle_log_complicated_init";
+    "muggle_log_console_handler_init";
+    "muggle_log_file_handler_init";
+    "muggle_log_file_rotate_handler_init";
+    "muggle_log_file_time_rot_handler_init";
+    "muggle_log_simple_init";
+    "muggle_logger_default";
+    "muggle_ma_ring_thread_ctx_get";
+    "muggle_ma_ring_thread_ctx_init";
+    "muggle_mcast_join";
+    "muggle_memory_pool_alloc";
+    "muggle_memory_pool_ensure_space";
+    "muggle_memory_pool_init";
+    "muggle_merge_sort";
+    "muggle_os_fopen";
+    "muggle_pointer_slot_init";
+    "muggle_queue_enqueue";
+    "muggle_queue_init";
+    "muggle_ring_buffer_init";
+    "muggle_ring_memory_pool_init";
+    "muggle_socket_create";
+    "muggle_socket_evloop_add_ctx";
+    "muggle_socket_evloop_handle_init";
+    "muggle_socket_evloop_pipe_init";
+    "muggle_socketpair";
+    "muggle_sowr_memory_pool_init";
+    "muggle_stack_ensure_capacity";
+    "muggle_stack_init";
+    "muggle_stack_push";
+    "muggle_tcp_bind";
+    "muggle_tcp_bind_connect";
+    "muggle_tcp_connect";
+    "muggle_tcp_listen";
+    "muggle_trie_init";
+    "muggle_trie_insert";
+    "muggle_ts_memory_pool_init";
+    "muggle_udp_bind";
+    "muggle_udp_connect" ].
+(* (allocating entry point, driven function from which it is reachable through direct calls) *)
+Definition driven_reach : list (string * string) :=
+  [ ("muggle_array_list_ensure_capacity", "muggle_array_list_append");
+    ("muggle_array_list_ensure_capacity", "muggle_array_list_insert");
+    ("muggle_channel_init", "muggle_async_logger_init");
+    ("muggle_memory_pool_init", "muggle_avl_tree_init");
+    ("muggle_memory_pool_alloc", "muggle_avl_tree_insert");
+    ("muggle_memory_pool_ensure_space", "muggle_avl_tree_insert");
+    ("muggle_linked_list_append", "muggle_evloop_add_ctx");
+    ("muggle_memory_pool_alloc", "muggle_evloop_add_ctx");
+    ("muggle_memory_pool_ensure_space", "muggle_evloop_add_ctx");
+    ("muggle_ev_signal_init", "muggle_evloop_new");
+    ("muggle_linked_list_init", "muggle_evloop_new");
+    ("muggle_memory_pool_init", "muggle_evloop_new");
+    ("muggle_memory_pool_init", "muggle_hash_table_init");
+    ("muggle_memory_pool_alloc", "muggle_hash_table_put");
+    ("muggle_memory_pool_ensure_space", "muggle_hash_table_put");
+    ("muggle_heap_ensure_capacity", "muggle_heap_insert");
+    ("muggle_heap_ensure_capacity", "muggle_heap_sort");
+    ("muggle_heap_init", "muggle_heap_sort");
+    ("muggle_heap_insert", "muggle_heap_sort");
+    ("muggle_memory_pool_alloc", "muggle_linked_list_append");
+    ("muggle_memory_pool_ensure_space", "muggle_linked_list_append");
+    ("muggle_memory_pool_init", "muggle_linked_list_init");
+    ("muggle_memory_pool_alloc", "muggle_linked_list_insert");
+    ("muggle_memory_pool_ensure_space", "muggle_linked_list_insert");
+    ("muggle_log_file_time_rot_handler_init", "muggle_log_complicated_init");
+    ("muggle_os_fopen", "muggle_log_complicated_init");
+    ("muggle_os_fopen", "muggle_log_file_handler_init");
+    ("muggle_os_fopen", "muggle_log_file_rotate_handler_init");
+    ("muggle_os_fopen", "muggle_log_file_time_rot_handler_init");
+    ("muggle_log_file_rotate_handler_init", "muggle_log_simple_init");
+    ("muggle_os_fopen", "muggle_log_simple_init");
+    ("muggle_ma_ring_thread_ctx_init", "muggle_ma_ring_thread_ctx_get");
+    ("muggle_socket_create", "muggle_mcast_join");
+    ("muggle_memory_pool_ensure_space", "muggle_memory_pool_alloc");
+    ("muggle_memory_pool_alloc", "muggle_queue_enqueue");
+    ("muggle_memory_pool_ensure_space", "muggle_queue_enqueue");
+    ("muggle_memory_pool_init", "muggle_queue_init");
+    ("muggle_memory_pool_alloc", "muggle_socket_evloop_add_ctx");
+    ("muggle_memory_pool_ensure_space", "muggle_socket_evloop_add_ctx");
+    ("muggle_queue_enqueue", "muggle_socket_evloop_add_ctx");
+    ("muggle_memory_pool_init", "muggle_socket_evloop_handle_init");
+    ("muggle_queue_init", "muggle_socket_evloop_handle_init");
+    ("muggle_stack_ensure_capacity", "muggle_stack_push");
+    ("muggle_socket_create", "muggle_tcp_bind");
+    ("muggle_socket_create", "muggle_tcp_bind_connect");
+    ("muggle_tcp_bind", "muggle_tcp_bind_connect");
+    ("muggle_socket_create", "muggle_tcp_connect");
+    ("muggle_socket_create", "muggle_tcp_listen");
+    ("muggle_memory_pool_init", "muggle_trie_init");
+    ("muggle_memory_pool_alloc", "muggle_trie_insert");
+    ("muggle_memory_pool_ensure_space", "muggle_trie_insert");
+    ("muggle_socket_create", "muggle_udp_bind");
+    ("muggle_socket_create", "muggle_udp_connect") ].
+Close Scope string_scope.
